@@ -105,6 +105,8 @@ def repOp (c : Cfg) (st : St) (ctr0 : Nat) (op : String) (args : List String) : 
     | some vs => outSt ctr0 (Rep.extend c st vs)
   | "clear", [] => outSt ctr0 (Rep.clear c st)
   | "dropmany", [ns] => outSt ctr0 (Rep.dropMany c st (decNats ns))
+  | "dropmanypub", [ns] =>
+    outSt ctr0 (Rep.dropManyPub c st (if ns = "-" then [] else (ns.splitOn ",").map decInt))
   | _, _ => "!bad-op"
 
 def valueIds (vs : List (Option (List Tk))) : Nat :=
